@@ -337,6 +337,12 @@ def plan(tier: str):
     for tc in (False, True):
         for variant in ("late", "pause"):
             cases.append(("late", tc, variant))
+    # the 5-second ACTIVE_CLIENTS / CLIENT_INFO broadcast falls into an interval: what the manager publishes then is traffic too
+    small = [(0, "ones"), (2, "ones"), (65, "ones"), (0, "twin-join")]
+    for tc in ((False,) if tier == "quick" else (False, True)):
+        for combo in itertools.product(small, repeat=2):
+            for dts in ((5.1, 1.05), (1.05, 5.1), (5.1, 5.1)):
+                cases.append((tc, [(n, p, dt) for (n, p), dt in zip(combo, dts)]))
     # counts up to 65535 / 65536
     cases.append((False, [(2, "max", 1.05), (1, "ones", 1.05)]))
     if tier == "thorough":
